@@ -216,3 +216,49 @@ def check_deadband_rt(cases):
                 failed.add(j)
                 bad.append(dict(cls="DeadBandRT", step=k, inputs_in_halves=cs["inputs"], expected=exp, got=got))
     return bad
+
+
+def check_ratelimiter(cases, awr_cases):
+    """RateLimiter and AntiWindupRate on the TLC-enumerated lattices (condition flags per device)."""
+    NumParam, Algeb, State = _mk()
+    from andes.core.discrete import RateLimiter, AntiWindupRate
+    bad = []
+    cases = list(cases)
+    n = len(cases)
+    if n:
+        x, rl, ru, cl, cu = State(), NumParam(), NumParam(), NumParam(), NumParam()
+        x.v = np.zeros(n)
+        x.e = np.array([float(c["e"]) for c in cases])
+        x.a = np.arange(n)
+        rl.v = np.array([float(c["rl"]) for c in cases])
+        ru.v = np.array([float(c["ru"]) for c in cases])
+        cl.v = np.array([float(c["cl"]) for c in cases])
+        cu.v = np.array([float(c["cu"]) for c in cases])
+        lim = RateLimiter(x, rl, ru, lower_cond=cl, upper_cond=cu)
+        lim.list2array(n)
+        lim.check_eq()
+        for k, c in enumerate(cases):
+            got = dict(zlr=int(lim.zlr[k]), zur=int(lim.zur[k]), e=int(x.e[k]) if float(x.e[k]).is_integer() else float(x.e[k]))
+            if got != c["exp"]:
+                bad.append(dict(cls="RateLimiter", case={q: c[q] for q in c if q != "exp"}, expected=c["exp"], got=got))
+    cases = list(awr_cases)
+    n = len(cases)
+    if n:
+        x, lo, hi, rl, ru, cl, cu = State(), NumParam(), NumParam(), NumParam(), NumParam(), NumParam(), NumParam()
+        x.v = np.array([float(c["x"]) for c in cases])
+        x.e = np.array([float(c["e"]) for c in cases])
+        x.a = np.arange(n)
+        for par, key in ((lo, "lo"), (hi, "hi"), (rl, "rl"), (ru, "ru"), (cl, "cl"), (cu, "cu")):
+            par.v = np.array([float(c[key]) for c in cases])
+        lim = AntiWindupRate(x, lo, hi, rl, ru, rate_lower_cond=cl, rate_upper_cond=cu)
+        lim.list2array(n)
+        lim.check_var()
+        lim.check_eq(niter=0)
+        num = lambda v: int(v) if float(v).is_integer() else float(v)   # noqa
+        for k, c in enumerate(cases):
+            got = dict(rate=dict(zlr=int(lim.zlr[k]), zur=int(lim.zur[k])),
+                       aw=dict(zu=int(lim.zu[k]), zl=int(lim.zl[k]), zi=int(lim.zi[k]), x=num(x.v[k]), e=num(x.e[k])))
+            exp = dict(rate=dict(zlr=c["exp"]["rate"]["zlr"], zur=c["exp"]["rate"]["zur"]), aw=c["exp"]["aw"])
+            if got != exp:
+                bad.append(dict(cls="AntiWindupRate", case={q: c[q] for q in c if q != "exp"}, expected=exp, got=got))
+    return bad
